@@ -98,7 +98,13 @@ InsertVector(m, pos, t, crit, body, sc) ==
                      ELSE [panic |-> FALSE, capdiff |-> FALSE, err |-> FALSE, msg |-> Norm(m)]),
     Step("decode_chain", "C13", FALSE, [first |-> FirstOf(w2.payloads), wire |-> EncChainW(w2.payloads), caps |-> FALSE],
          IF crit = 1 THEN [panic |-> FALSE, capdiff |-> FALSE, err |-> TRUE]
-                     ELSE [panic |-> FALSE, capdiff |-> FALSE, err |-> FALSE, payloads |-> NormChain(m.payloads)]) >>)
+                     ELSE [panic |-> FALSE, capdiff |-> FALSE, err |-> FALSE, payloads |-> NormChain(m.payloads)]),
+    \* the same datagram through DecodeDecrypt without keys and with a pre-parsed header (the harness repeats the call with the
+    \* same header object, with one parsed from the header octets alone and with one parsed from a buffer reused since)
+    Step("unprotect", "C13", FALSE, [sa |-> "none", role |-> FALSE, wire |-> b, hdrmode |-> "pre", caps |-> FALSE],
+         IF \E q \in 1..Len(m.payloads) : m.payloads[q].k = "SK" THEN [panic |-> FALSE]
+         ELSE IF crit = 1 THEN [panic |-> FALSE, capdiff |-> FALSE, err |-> TRUE]
+                          ELSE [panic |-> FALSE, capdiff |-> FALSE, err |-> FALSE, msg |-> Norm(m)]) >>)
 InsertSound(m, pos, t, crit, body, sc) ==
   LET w  == WithCrit(PlainMsg(Norm(m)), sc)
       b  == EncMsgW([w EXCEPT !.payloads = InsertUnk(w.payloads, pos, t, crit, 0, body)])
